@@ -94,6 +94,21 @@ pub struct Dart {
     pub(crate) end: usize,
 }
 
+#[cfg(honeycomb_verif)]
+impl Dart {
+    /// Verification hook: index of the dart's start vertex in the vertex table.
+    #[must_use]
+    pub fn verif_start(&self) -> usize {
+        self.start
+    }
+
+    /// Verification hook: index of the dart's end vertex in the vertex table.
+    #[must_use]
+    pub fn verif_end(&self) -> usize {
+        self.end
+    }
+}
+
 /// Beta component.
 #[derive(Component, Clone)]
 pub struct Beta(pub u8, pub usize, pub usize); // beta id, v0_id, v1_id ?
